@@ -32,6 +32,7 @@ e.g. HPAngle(value).dec()
 """
 
 from math import radians
+import numpy as np
 
 
 class DECAngle(float):
@@ -1249,13 +1250,9 @@ def dec2hp_v(dec):
 
 
 def hp2dec_v(hp):
-    # round off the float noise of the multiplication (e.g. 2.01 * 1000 =
-    # 2009.9999999999998) before the fields are split
-    degmin, second = divmod((abs(hp) * 1000).round(10), 10)
-    degree, minute = divmod(degmin, 100)
-    dec = degree + (minute / 60) + (second / 360)
-    dec[hp <= 0] = -dec[hp <= 0]
-    return dec
+    # element-wise hp2dec: float divmod on hp * 1000 misplaces the fields of
+    # values such as 2.01 (2009.9999999999998)
+    return np.vectorize(hp2dec, otypes=[float])(hp)
 
 
 def angular_typecheck(angle):
